@@ -80,7 +80,7 @@ def ann_set(op):
 ALGS = ["omitted", "Auto", "LU", "Cholesky", "CG", "GMRES"]
 STEPS = ["matvec", "rmatvec", "matmat", "T", "H", "add", "sub", "mulc", "divc", "neg", "matmul", "kron", "kronsum", "bd", "annotate",
          "densify", "getitem_row", "getitem_slice", "getitem_idx", "to_none", "inv", "solve", "logdet", "diag", "trace", "exp", "sqrt",
-         "pow", "eig", "svd", "cholesky", "plu", "cg", "gmres", "lanczos", "arnoldi", "hutch", "flatten", "inv_left", "inv_T", "rmatmat",
+         "pow", "eig", "svd", "cholesky", "plu", "cg", "gmres", "lanczos", "arnoldi", "hutch", "flatten", "inv_left", "inv_T", "rmatmat", "to_dtype",
          "repeat"]
 
 
@@ -123,7 +123,7 @@ def history_cases(draw, tier):
 
 @st.composite
 def flatten_cases(draw, tier):
-    g = gen.TreeGen(draw, avoid=AVOID - {"dup_index"})
+    g = gen.TreeGen(draw, avoid=(AVOID - {"dup_index"}) | {"share"})  # (one object as two children: its array is two leaves; exercised by C01/C03/C08)
     r, c = TP.target_shape(g, maxn=6)
     tree = g.op(r, c, g.pick([0, 0, 1, 1, 2, 3]))
     return {"mode": "flatten", "tree": tree, "leaf": g.integer(0, 50)}
@@ -221,6 +221,9 @@ class Ctx:
             return A[self.idx, self.idx2].to_dense() if s.get("i", 0) % 2 else A[self.idx, self.idx].to_dense()
         if name == "to_none":
             return A.to(None)
+        if name == "to_dtype":  # a dtype move yields a new operator; the original (and whatever it shares) stays as it was
+            target = np.float32 if np.dtype(A.dtype) in (np.dtype(np.float64), np.dtype(np.float32)) else np.complex64
+            return A.to(None, dtype=target).to_dense()
         if name == "inv":
             alg = self.alg(s["alg"])
             return L.inv(A, *([alg] if alg else [])) @ b
@@ -351,6 +354,10 @@ def check_history(case, out):
                     return False
                 if d.shape != m["dense"].shape or not np.array_equal(d, m["dense"], equal_nan=True):
                     out.fail("operator_changed", site, type(m["op"]).__name__.split("[")[0], f"step {i} ({s['s']}): dense form differs from its creation value")
+                    return False
+                if d.dtype != m["dense"].dtype:
+                    out.fail("operator_changed", site, "dtype:" + type(m["op"]).__name__.split("[")[0],
+                             f"step {i} ({s['s']}): dense form is now {d.dtype}, it was {m['dense'].dtype} when the operator was created")
                     return False
         return True
 
